@@ -19,7 +19,7 @@ CLAIMED = {
          "DESIGN.md §4 C12"),
  "C13": ("exploration",
          "runtime monitor over a replica of getty's receive loop driving the real RpcPackageHandler.Read; ground truth from an independent framer; exhaustive cut positions for short streams",
-         "Generated frame streams are fed to the real frame reader under every 2-cut, byte-wise feed, truncated prefixes (streams <= 400 bytes), every 3-cut (<= 70 bytes), boundary cuts and random partitions; delivered messages, consumed lengths, need-more answers, errors, panics and zero-progress returns are compared with the independent framer's ground truth; head maps are round-tripped through the real Write and Read.",
+         "Generated frame streams (and fixed ones whose middle frame is 2^16-1 ... 2^16+head length+1 or 2^17 bytes long) are fed to the real frame reader under every 2-cut, byte-wise feed, truncated prefixes (streams <= 400 bytes), every 3-cut (<= 70 bytes), boundary cuts and random partitions; delivered messages, consumed lengths, need-more answers, errors, panics and zero-progress returns are compared with the independent framer's ground truth; head maps are round-tripped through the real Write and Read.",
          "Trusted base: harness/wire framer; the loop replica follows dubbo-getty v1.5.0 handleTCPPackage. Garbage input is only required not to panic or spin.",
          "DESIGN.md §4 C13"),
  "C04": ("fault_enumeration",
@@ -74,7 +74,7 @@ CLAIMED = {
          "DESIGN.md §4 C08"),
  "C09": ("exploration",
          "runtime monitor: real AT driver + RM in a client child against the MySQL-protocol fake and the fake coordinator; a foreign writer (plain connection) modifies the branch's rows between local commit and BranchRollback; three-way oracle on ground-truth row versions (before branch / after branch / current) taken from the fake database, never from the undo log",
-         "Committed branches (INSERT 1/3 rows, UPDATE 1/many rows incl. value-preserving updates, DELETE 1/many rows, upsert hit/miss; five key shapes incl. composite text keys whose parts run into each other when concatenated) x foreign modification {none, written column, unwritten column, delete, re-insert same/different, some rows of many, revert to before} x foreign value {far, near: neighbour integers incl. beyond 2^53, next float, numeric-looking text in another spelling, +1 s} x only-care-update-columns x serializer; dirty rows must survive with the undo log kept and a non-Rollbacked answer; rows equal to the before image => Rollbacked without a durable write; rows equal to the after image => restored.",
+         "Committed branches (INSERT 1/3 rows, UPDATE 1/many rows incl. value-preserving updates, DELETE 1/many rows, upsert hit/miss; five key shapes incl. composite text keys whose parts run into each other when concatenated; a third of the tables with nullable columns and statements that leave NULL behind) x foreign modification {none, written column, unwritten column, delete, re-insert same/different, some rows of many, revert to before} x foreign value {far, near: neighbour integers incl. beyond 2^53, next float, numeric-looking text in another spelling, +1 s} x only-care-update-columns x serializer; dirty rows must survive with the undo log kept and a non-Rollbacked answer; rows equal to the before image => Rollbacked without a durable write; rows equal to the after image => restored.",
          "Validation-off runs are a control group without verdict. Mixed before/after row sets without a dirty row get no verdict (the code compares whole image sets and refuses, which is conservative). A row matched but left unchanged by the branch only has to survive.",
          "DESIGN.md §4 C09"),
  "C10": ("fault_enumeration",
